@@ -25,7 +25,7 @@ Lossless(input, toks) == LosslessFails(input, toks) = ""
 (* ---- options (C15) ---- *)
 \* o is a set of option names
 IsQuoteTok(kind, b) == b[1] = TQuoted \/ (kind = "expression" /\ b[1] = TWord /\ b[2] # <<>> /\ b[2][1] = 34)
-QState(kind) == IF kind \in {"generic", "mustache", "generic-custom"} THEN "generic" ELSE kind
+QState(kind) == IF kind \in {"expression"} THEN "expression" ELSE IF kind \in {"csv", "csv-wide"} THEN "csv" ELSE "generic"
 MustDrop(o, b) == \/ b[1] = TUnknown /\ "skipUnknown" \in o
                   \/ b[1] = TComment /\ "skipComments" \in o
                   \/ b[1] = TEof /\ "skipEof" \in o
